@@ -209,11 +209,25 @@ def has_choose(t):
     return any(l[0] == "C" for l in leaves(t))
 
 
+def plain(case, t):
+    """Choose / Allocation leaves, Scale of plain, and constant-path LessThan over plain children: the nodes whose
+    start and end times are honest constants."""
+    k = t[0]
+    if k in ("C", "A"):
+        return True
+    if k == "SC":
+        return plain(case, t[4])
+    if k == "LT":
+        me = kinds(case, t)
+        return me is not None and me[2] == "c" and plain(case, t[2]) and plain(case, t[3])
+    return False
+
+
 def flt_signature(case):
-    """INPUT predicate of finding F14: a LessThan that is lowered through solver variables has a child whose
+    """INPUT predicate of finding F14: (a) a LessThan that is lowered through solver variables has a child whose
     indicator is the constant 1 (a trivially satisfied sub-expression) that contains Choose leaves, or a Min mixes
     constant- and variable-indicator children (same leak): the parent's indicator then does not gate that child's
-    utility and placements."""
+    utility and placements; (b) a trivially satisfied LessThan has a child that is not `plain`."""
     for t in nodes(case["tree"]):
         if t[0] == "LT":
             me = kinds(case, t)
@@ -222,6 +236,11 @@ def flt_signature(case):
                     kc = kinds(case, c)
                     if kc is not None and kc[2] == "c" and has_choose(c):
                         return True
+            # variant b: a trivially satisfied (constant-path) LessThan takes its constant times from a child that is
+            # itself lowered through solver variables and may be unsatisfied
+            if me is not None and me[2] == "c" and has_choose(t):
+                if not (plain(case, t[2]) and plain(case, t[3])):
+                    return True
         if t[0] == "MIN":
             me = kinds(case, t)
             if me is not None and me[2] == "v":
@@ -756,21 +775,38 @@ F14_ASSIGNMENT = {"e1_placed_at_4_for_": 1, "e1_using_partition_1_at_4": 1, "e2_
                   "e7_placed_at_2_for_": 1, "e7_using_partition_1_at_2": 1, "e5_max_start_time": 8}
 
 
+F14B_WITNESS = {"pt": [[1, 2, 1]], "now": 0, "g": 1, "kind": "witness",
+                "tree": ["OBJ", 12, [["LT", 11, ["LT", 10, ["C", 1, [1], 1, 0, 5, 1],
+                                                  ["LT", 9, ["LT", 8, ["C", 2, [1], 1, 6, 1, 1], ["MAX", 7, [["C", 3, [1], 1, 8, 1, 1]]]],
+                                                   ["C", 4, [1], 1, 1, 1, 1]]],
+                                      ["C", 5, [1], 1, 3, 1, 1]]]]}
+F14B_ASSIGNMENT = {"e1_placed_at_0_for_": 1, "e1_using_partition_1_at_0": 1, "e5_placed_at_3_for_": 1,
+                   "e5_using_partition_1_at_3": 1, "e7_max_start_time": 7}
+
+
 def replay_f14(ctx, exe):
-    c = F14_WITNESS
+    replay_f14_one(ctx, exe, F14_WITNESS, F14_ASSIGNMENT, "F14",
+                   "an unsatisfied LessThan still passes up the utility and placements of children whose indicator is "
+                   "the constant 1 (Expression.cpp:1832-1835,1966-1969): LessThan(LessThan(A[4,6),B[6,8)), "
+                   "LessThan(Max[C[8,10)], LessThan(A'[0,2),B'[2,4))))")
+    replay_f14_one(ctx, exe, F14B_WITNESS, F14B_ASSIGNMENT, "F14b",
+                   "a trivially satisfied LessThan (constant times, Expression.cpp:1823-1835) takes indicator 1 and the "
+                   "constant end time of an UNSATISFIED child: LessThan(LessThan(A[0,5), LessThan(LessThan(D[6,7),Max[C[8,9)]), "
+                   "W[1,2))), Z[3,4))")
+
+
+def replay_f14_one(ctx, exe, c, assignment, fid, text):
     try:
         d = run_driver(exe, driver_text(c, []), 1)[0]
         if d["err"] is not None:
             return
-        vals = [F14_ASSIGNMENT.get(v[0], 0) for v in d["vars"]]
+        vals = [assignment.get(v[0], 0) for v in d["vars"]]
         o = run_driver(exe, driver_text(c, [vals]), 1)[0]
         exp = canon_solution(d, o["sols"][0], vals)
     except (DriverError, CanonError, KeyError, IndexError):
         return
     v = py_lt_violation(c, exp[6])
     if exp[1] == 1 and v and flt_signature(c):
-        ctx.known("F14", "an unsatisfied LessThan still passes up the utility and placements of children whose indicator is "
-                         "the constant 1 (Expression.cpp:1832-1835,1966-1969): LessThan(LessThan(A[4,6),B[6,8)), "
-                         "LessThan(Max[C[8,10)], LessThan(A'[0,2),B'[2,4)))) has a solution of utility %d whose read-back "
-                         "places %s (first child, ends %d) after %s (second child, starts %d)"
-                  % (exp[3], "e%d" % v["first"][0], v["first"][2], "e%d" % v["second"][0], v["second"][1]))
+        ctx.known(fid, "%s has a solution of utility %d whose read-back places %s (first child, ends %d) after %s "
+                       "(second child, starts %d)" % (text, exp[3], "e%d" % v["first"][0], v["first"][2],
+                                                      "e%d" % v["second"][0], v["second"][1]))
